@@ -137,6 +137,12 @@ func hdrRun(args []string) error {
 						} else {
 							zr.Reset(src)
 						}
+						zcls, zsz := "", 0
+						if readerRuns[g]%4 == 1 {
+							// a zero-length Read first: it starts the Reader (the header is parsed and judged) like any other
+							_, zerr := zr.Read(buf[:0])
+							zcls, zsz = errClass(zerr), zr.Size()
+						}
 						n, rerr := zr.Read(buf)
 						sz := zr.Size()
 						rcls := errClass(rerr)
@@ -160,6 +166,14 @@ func hdrRun(args []string) error {
 							good = good && rcls == "bd"
 						default:
 							good = good && (rcls == "hc" || rcls == "bd")
+						}
+						if zcls != "" {
+							if accept {
+								good = good && zcls == "none" && zsz == sz
+							} else {
+								good = good && (zcls == "hc" || zcls == "bd")
+							}
+							rd["zero"] = zcls
 						}
 					}
 					if !good {
